@@ -537,7 +537,10 @@ func applierReplay(args []string) {
 	expandMaxPath := fl.int("expand-maxpath", 1)
 
 	env := newApplierEnv(seed, td, pvariant)
-	cache := &stateCache{m: map[string]*cstate{}}
+	sharedCache := &stateCache{m: map[string]*cstate{}}
+	// C12: with -private-states every worker rebuilds its own states, so that code which writes into
+	// its inputs cannot turn into a data race between workers (it is caught by the digests instead)
+	privateStates := fl.bool("private-states")
 	col := newCollector("applier", fl.str("only", ""))
 
 	lines := make(chan []byte, 1024)
@@ -555,6 +558,11 @@ func applierReplay(args []string) {
 
 		go func() {
 			defer wg.Done()
+
+			cache := sharedCache
+			if privateStates {
+				cache = &stateCache{m: map[string]*cstate{}}
+			}
 
 			for line := range lines {
 				var ed edge
@@ -664,7 +672,7 @@ func applierReplay(args []string) {
 
 	col.sum.Extra["accepted"] = accepted
 	col.sum.Extra["refused"] = refused
-	col.sum.Extra["concrete_states"] = len(cache.m)
+	col.sum.Extra["concrete_states"] = len(sharedCache.m)
 	col.sum.Extra["td"] = td
 	col.sum.Extra["seed"] = seed
 	col.sum.Extra["pvariant"] = pvariant
@@ -698,7 +706,7 @@ func randomOp(r *rand.Rand, pos int, kts []string) ROp {
 
 	o := ROp{Type: ty, Wf: "ok", Reveal: "ok", Sig: "ok", Dhash: true, Dv: "ok", Sfx: true, Nuv: "norm"}
 
-	wfCommon := []string{"badjson", "nosuffix", "nosigneddata", "reveal_mh", "badjws", "extrahdr", "algnone", "algdisallowed", "noalg", "nokey", "badkey", "crv", "nonce", "payloadjson"}
+	wfCommon := []string{"badjson", "nosuffix", "nosigneddata", "reveal_mh", "badjws", "extrahdr", "algnone", "algdisallowed", "noalg", "nokey", "badkey", "crv", "nonce", "payloadjson", "rsakey"}
 
 	switch ty {
 	case "create", "bogus":
@@ -706,7 +714,7 @@ func randomOp(r *rand.Rand, pos int, kts []string) ROp {
 	case "update":
 		o.Wf = pick("ok", append(wfCommon, "dh_mh"), 0.1)
 	case "recover":
-		o.Wf = pick("ok", append(wfCommon, "dh_mh", "rc_mh", "reuse"), 0.1)
+		o.Wf = pick("ok", append(wfCommon, "dh_mh", "rc_mh", "reuse", "reuse_other_alg"), 0.1)
 	case "deactivate":
 		o.Wf = pick("ok", wfCommon, 0.1)
 	}
